@@ -158,6 +158,7 @@ impl SimNode {
                 };
                 let txid = tx.compute_txid();
                 st.log.push((RpcKind::Send, txid));
+                crate::evlog::push("RS");
                 st.known.insert(txid, tx);
                 match st.script.get(&txid).map(|x| x.1).unwrap_or(Send::Ok) {
                     Send::Ok => Ok(ok(req.id, serde_json::Value::String(txid.to_string()))),
@@ -170,6 +171,7 @@ impl SimNode {
                     None => return Ok(err(req.id, -8)),
                 };
                 st.log.push((RpcKind::GetRaw, txid));
+                crate::evlog::push("RG");
                 let ans = st.script.get(&txid).map(|x| x.0).unwrap_or(GetRaw::NotFound);
                 match ans {
                     GetRaw::NotFound => Ok(err(req.id, -5)),
